@@ -32,7 +32,7 @@ def run(pid, tier):
     P = presets.all_presets()
     base = dict(P["net_nuclear_winter"])
     with open(os.path.join(wd, "harness_presets_snapshot.py"), "w") as fh:
-        fh.write("BASE_COUNTRY = %r\nBASE_GLOBAL = %r\n" % (base, presets.to_global(base)))
+        fh.write("BASE_COUNTRY = %r\nBASE_GLOBAL = %r\nBASE_COUNTRY2 = %r\n" % (base, presets.to_global(base), dict(P["ms_simple"])))
     p = C.run_worker("harness.options_replay", [cf, rf], C.scratch_repo(), timeout=3000, extra_env={"PYTHONPATH": wd + os.pathsep + C.VERIF})
     if p.returncode != 0:
         out.machinery.append("options replay failed: " + p.stderr[-1500:])
